@@ -145,9 +145,11 @@ inductive DOp where
   | renum (field : Int)
   | msg (field : Int) (ops : List DOp)
   | rmsg (field : Int) (ops : List DOp)
+  | rmsgn (field : Int) (ops : List DOp)
   | loop (ops : List DOp)
   | unrec (mask : Nat)
   | fail (field : Int)
+  | faile (field : Int)
 
 partial def pDOp : P DOp := do
   let t ← tok
@@ -157,9 +159,11 @@ partial def pDOp : P DOp := do
   | "RENUM" => return .renum (← int)
   | "MSG" => do let f ← int; let n ← nat; let ops ← rep n pDOp; return .msg f ops
   | "RMSG" => do let f ← int; let n ← nat; let ops ← rep n pDOp; return .rmsg f ops
+  | "RMSGN" => do let f ← int; let n ← nat; let ops ← rep n pDOp; return .rmsgn f ops
   | "LOOP" => do let n ← nat; let ops ← rep n pDOp; return .loop ops
   | "UNREC" => return .unrec (← nat)
   | "FAIL" => return .fail (← int)
+  | "FAILE" => return .faile (← int)
   | _ => failure
 
 def showSVal : Enc.SVal → String
@@ -183,12 +187,17 @@ partial def runDOp : DOp → Dec.DecM (List String)
     return (d, log ++ ["re=" ++ String.intercalate "," (xs.map toString) ++ stateSuffix d])
   | .msg f ops => Dec.message f (runDOps ops)
   | .rmsg f ops => Dec.repeatedMessage f (fun d log => Dec.loop (runDOps ops) d (log ++ ["entry"]))
+  -- the callback reads the element with ONE pass of its readers, without `Loop`
+  | .rmsgn f ops => Dec.repeatedMessage f (fun d log => runDOps ops d (log ++ ["entry"]))
   | .loop ops => Dec.loop (runDOps ops)
   | .unrec mask => fun d log => do
     let (d, out) ← Dec.unrecognizedFields mask d []
     return (d, log ++ ["u=" ++ hexOf out ++ stateSuffix d])
   | .fail f => fun d log =>
     let d := Dec.fail d f "x"
+    .ok (d, log ++ ["f" ++ stateSuffix d])
+  | .faile f => fun d log =>
+    let d := Dec.fail d f ""
     .ok (d, log ++ ["f" ++ stateSuffix d])
 
 partial def runDOps : List DOp → Dec.DecM (List String)
